@@ -245,7 +245,7 @@ def run(pid, tier, seed, replay=None):
         got = [None] * len(beh)
         failed = set()
         s4 = {}
-        for it in range(16):
+        for it in range(48):
             todo = [i for i in range(len(beh)) if got[i] is None and i not in failed]
             if not todo:
                 break
@@ -317,7 +317,8 @@ def run(pid, tier, seed, replay=None):
         V.cov["transitions"] += st["states"]
         lap("validate_" + name)
         V.extra["trace_" + name] = {"accepted": acc, "issues": len(issues), "tlc_states": st["states"], "wall_s": round(st["wall"], 1), "unchecked": st["unchecked"]}
-        for iss in issues:
+        V.extra["trace_" + name]["issues_judged"] = min(len(issues), 8)
+        for iss in issues[:8]:      # every one is re-executed to confirm it: a handful per layer is enough for the verdict
             ex = execs[iss.exec_index]
             key = exec_key(ex)
             if iss.kind == "rejected":
